@@ -185,8 +185,10 @@ pub fn op_cmp(p: &Pointer, q: &Pointer) -> String {
         // views are cut out of the buffer's own text at separators found by our own scan and re-wrapped
         // with `Pointer::parse` (a view of the very same bytes) — no other crate function is involved
         let text: &str = buf.as_str();
-        let seps: Vec<usize> = text.bytes().enumerate().filter(|(_, b)| *b == b'/').map(|(i, _)| i).collect();
-        for idx in super::util::sample_positions(seps.len().saturating_sub(1), 8) {
+        let mut seps: Vec<usize> = text.bytes().enumerate().filter(|(_, b)| *b == b'/').map(|(i, _)| i).collect();
+        for k in super::util::sample_positions(text.len(), 8) { if text.is_char_boundary(k) && !seps.contains(&k) { seps.push(k); } }
+        seps.sort_unstable();
+        for idx in super::util::sample_positions(seps.len().saturating_sub(1), 10) {
             if let Some(&cut) = seps.get(idx) {
                 if let Ok(v) = Pointer::parse(&text[..cut]) { views.push(v); }
                 if let Ok(v) = Pointer::parse(&text[cut..]) { views.push(v); }
